@@ -4,9 +4,11 @@
    if the whole interval was integrated" fails for time steps not above round_off.
    Proved: the status returned is the one whose condition occurred (Rosenbrock: all five statuses; backward Euler:
    Converged only once t < time_step has failed).
-   Not yet a theorem (validated by the tie and the oracle): 0 <= final_time <= time_step, termination. *)
+   Proved in exact arithmetic (every scalar structure that embeds into the ordered rationals): 0 <= final_time <= time_step.
+   Not a theorem (validated by the tie and the oracle): the same up to rounding in binary64, termination. *)
 From Coq Require Import QArith.
-From Model Require Import Base Rosenbrock BackwardEulerM IntegratorProofs RosScratchProofs NumInst.
+From Model Require Import Base Rosenbrock BackwardEulerM IntegratorProofs RosScratchProofs NumInst RosTimeQ.
+From Coq Require Import Qabs.
 Local Open Scope nat_scope.
 
 Theorem C06_rosenbrock_counters_equal_operations :
@@ -103,3 +105,68 @@ Theorem C06_backward_euler_converged_means_interval_covered :
     br_state r = Converged -> ltb (br_final_time r) time_step = false.
 Proof. exact be_converged_means_interval_covered. Qed.
 Print Assumptions C06_backward_euler_converged_means_interval_covered.
+
+(* 0 <= final_time_ <= time_step for the Rosenbrock integrator, every policy set, history and exit, in every scalar
+   structure that embeds into the ordered field of the rationals (phi a homomorphism for + - *, reflecting < and <=,
+   commuting with abs): the rationals themselves (next theorem) and binary64 on every run in which no operation rounds.
+   Premises: round_off, factor_min, factor_max, rejection_factor_decrease not negative; factor_min and
+   rejection_factor_decrease at most 1; an error norm that is not below 1 gives a raw factor safety / err^(1/order) of
+   at most 1 (the power function is an oracle of the model). *)
+Theorem C06_rosenbrock_final_time_within_the_interval :
+  forall (N : Num) ltb leb nabs isnan isinf is_zero absorbed pow_inv ten delta_min
+         (V M F : Type) vaxpy vzero mzero add_diag forcing negjac in_place factor_sep solve_sep factor_ip solve_ip nerr
+         (p : params N) (phi : T N -> Q),
+    (forall a b, phi (nadd N a b) == phi a + phi b)%Q ->
+    (forall a b, phi (nsub N a b) == phi a - phi b)%Q ->
+    (forall a b, phi (nmul N a b) == phi a * phi b)%Q ->
+    (forall a b, ltb a b = true <-> (phi a < phi b)%Q) ->
+    (forall a b, leb a b = true <-> (phi a <= phi b)%Q) ->
+    (forall a, phi (nabs a) == Qabs (phi a))%Q ->
+    (0 <= phi (p_round_off p))%Q ->
+    (0 <= phi (p_factor_min p) /\ phi (p_factor_min p) <= 1)%Q ->
+    (0 <= phi (p_factor_max p))%Q ->
+    (0 <= phi (p_rej_dec p) /\ phi (p_rej_dec p) <= 1)%Q ->
+    (forall err, ltb err (n1 N) = false -> (phi (ndiv N (p_safety p) (pow_inv err (p_elo p))) <= 1)%Q) ->
+    forall fuel time_step (s : rstate V M F),
+      (phi (n0 N) == 0)%Q -> (0 <= phi time_step)%Q ->
+      let r := ros_solve N ltb leb nabs isnan isinf is_zero absorbed pow_inv ten delta_min V M F vaxpy vzero mzero
+                         add_diag forcing negjac in_place factor_sep solve_sep factor_ip solve_ip nerr p fuel time_step s in
+      (0 <= phi (r_final_time r) /\ phi (r_final_time r) <= phi time_step)%Q.
+Proof. exact ros_final_time_within_the_interval. Qed.
+Print Assumptions C06_rosenbrock_final_time_within_the_interval.
+
+(* ... instantiated at the exact rationals the correspondence check computes with; the premises are met, e.g., by
+   safety 9/10 with an order-1 power oracle (RosTimeQ.time_bound_premises_are_satisfiable) *)
+Theorem C06_rosenbrock_final_time_within_the_interval_over_Q :
+  forall isnan isinf is_zero absorbed (pow_inv : Q -> Q -> Q) ten delta_min
+         (V M F : Type) vaxpy vzero mzero add_diag forcing negjac in_place factor_sep solve_sep factor_ip solve_ip nerr
+         (p : params NumQ),
+    (0 <= p_round_off p)%Q -> (0 <= p_factor_min p <= 1)%Q -> (0 <= p_factor_max p)%Q -> (0 <= p_rej_dec p <= 1)%Q ->
+    (forall err, qlt err 1 = false -> (Qred (p_safety p / pow_inv err (p_elo p)) <= 1)%Q) ->
+    forall fuel (time_step : Q) (s : rstate V M F), (0 <= time_step)%Q ->
+      let r := ros_solve NumQ qlt qle Qabs isnan isinf is_zero absorbed pow_inv ten delta_min V M F vaxpy vzero mzero
+                         add_diag forcing negjac in_place factor_sep solve_sep factor_ip solve_ip nerr p fuel time_step s in
+      (0 <= r_final_time r <= time_step)%Q.
+Proof. exact ros_final_time_within_the_interval_Q. Qed.
+Print Assumptions C06_rosenbrock_final_time_within_the_interval_over_Q.
+
+(* ... and for backward Euler (the initial clamp of h_start to the interval is the repair bba10e6): premises h_start,
+   the reduction factors and the doubling factor not negative *)
+Theorem C06_backward_euler_final_time_within_the_interval :
+  forall (N : Num) ltb is_zero (V M F : Type) vzero mzero add_diag forcing negjac in_place factor_sep solve_sep
+         factor_ip solve_ip vresid vclamp_add is_converged two (p : be_params N) (phi : T N -> Q),
+    (forall a b, phi (nadd N a b) == phi a + phi b)%Q ->
+    (forall a b, phi (nsub N a b) == phi a - phi b)%Q ->
+    (forall a b, phi (nmul N a b) == phi a * phi b)%Q ->
+    (forall a b, ltb a b = true <-> (phi a < phi b)%Q) ->
+    (phi (n0 N) == 0)%Q ->
+    (0 <= phi (bp_h_start p))%Q ->
+    (forall r, In r (bp_reductions p) -> (0 <= phi r)%Q) ->
+    (0 <= phi two)%Q ->
+    forall fuel time_step (s : bstate V M F),
+      (0 <= phi time_step)%Q ->
+      let r := be_solve N ltb is_zero V M F vzero mzero add_diag forcing negjac in_place factor_sep solve_sep factor_ip
+                        solve_ip vresid vclamp_add is_converged two p fuel time_step s in
+      (0 <= phi (br_final_time r) /\ phi (br_final_time r) <= phi time_step)%Q.
+Proof. exact be_final_time_within_the_interval. Qed.
+Print Assumptions C06_backward_euler_final_time_within_the_interval.
